@@ -76,16 +76,19 @@ def replay {α} : Capture α → List (Nat × List α) → Fed α
     | .stop e => .stop e
     | .more c' => replay c' rest
 
-abbrev Pending (α : Type) := List (Nat × Capture α)
+/-- `epoch_coroutines`: an insertion-ordered dict.  Its key `(info['t0'], info.get('key'))`
+is computed from the very `info` handed to the coroutine, so the model keeps the list of
+coroutines and reads the key off `c.req.key`. -/
+abbrev Pending (α : Type) := List (Capture α)
 
-def hasKey {α} (p : Pending α) (k : Nat) : Bool := p.any (fun x => x.1 == k)
+def hasKey {α} (p : Pending α) (k : Nat) : Bool := p.any (fun c => c.req.key == k)
 
 /-- The `while removed_queue:` loop (pipeline.py 768-783): returns the remaining
 `epoch_coroutines` and the `skip` list (in append order). -/
 def removeAll {α} : Pending α → List Nat → Pending α × List Nat
   | p, [] => (p, [])
   | p, k :: ks =>
-    if hasKey p k then removeAll (p.filter (fun x => x.1 != k)) ks
+    if hasKey p k then removeAll (p.filter (fun c => c.req.key != k)) ks
     else
       let r := removeAll p ks
       (r.1, k :: r.2)
@@ -95,11 +98,11 @@ def removeAll {α} : Pending α → List Nat → Pending α × List Nat
 appended to `epochs`, in order. -/
 def feedAll {α} : Pending α → Nat → List α → Pending α × List (Epoch α)
   | [], _, _ => ([], [])
-  | (k, c) :: rest, slb, ch =>
+  | c :: rest, slb, ch =>
     let r := feedAll rest slb ch
     match c.feed slb ch with
     | .stop e => (r.1, e :: r.2)
-    | .more c' => ((k, c') :: r.1, r.2)
+    | .more c' => (c' :: r.1, r.2)
 
 /-- The `while queue:` loop (pipeline.py 803-833). `none` = the
 `ValueError('Duplicate epochs not supported')` of line 829. -/
@@ -117,7 +120,7 @@ def intakeAll {α} (prior : List (Nat × List α)) :
         | none => none
       | .more c =>
         if hasKey p r.key then none
-        else intakeAll prior (p ++ [(r.key, c)]) skip rs
+        else intakeAll prior (p ++ [c]) skip rs
 
 /-- Can `concat(epochs, axis=-3)` / `np.concatenate([e[np.newaxis] ...])`
 (pipeline.py 843-846) succeed: all epochs of the batch have the shape of the first. -/
